@@ -297,7 +297,7 @@ pub fn arb_f64_bits() -> BoxedStrategy<u64> {
 }
 
 const CHAR_SPECIAL: &[u32] = &[
-    0, 1, 0x41, 0x7F, 0x80, 0x7FF, 0x800, 0xD7FF, 0xE000, 0xFFFD, 0xFFFF, 0x10000, 0x10FFFF, 0xE9, 0x540D,
+    0, 1, 0x41, 0x7F, 0x80, 0x7FF, 0x800, 0xD7FF, 0xE000, 0xFFFD, 0xFFFF, 0x10000, 0x10FFFF, 0xE9, 0x540D, 0xA0, 0xC0, 0xFF, 0x100,
     0x1F600,
 ];
 
@@ -312,7 +312,7 @@ pub fn arb_char() -> BoxedStrategy<char> {
 
 /// Lengths: mostly small, sometimes at varint boundaries.
 pub fn arb_len(max_big: usize) -> BoxedStrategy<usize> {
-    let bounds: Vec<usize> = [0usize, 1, 2, 126, 127, 128, 129, 253, 254, 255, 256, 300, 16383, 16384, 16385]
+    let bounds: Vec<usize> = [0usize, 1, 2, 126, 127, 128, 129, 253, 254, 255, 256, 257, 300, 383, 384, 511, 512, 600, 1000, 16383, 16384, 16385]
         .iter()
         .copied()
         .filter(|n| *n <= max_big)
